@@ -537,7 +537,10 @@ Proof.
   - (* MapCtx *) exact (IH _ _ _ _ _ _ Hn (He : envok (with_ctx ctx (ap1 f (cval ctx)))) Hp H).
   - (* JustCfg *) destruct (just_sem K toks spn (val_toks (cval ctx)) p a) as [[p1|] a1] eqn:E; injection H as <- <-;
       apply just_sem_mono in E; destruct E; split; auto; discriminate.
-  - (* Memo *) eapply IH; eauto.
+  - (* Memo *)
+    destruct (sem n g ctx p None) as [[o1 a1]|] eqn:E; [|discriminate]. injection H as <- <-.
+    pose proof (IH _ _ _ _ _ _ Hn He Hp E) as (M1 & M2).
+    split; [apply join_mono | intros ->; apply join_ge; auto].
   - (* Rec *) refine (IH _ _ _ _ _ _ Hn _ Hp H). unfold envok in *. cbn. rewrite Hn. exact He.
   - (* Var *) destruct (nth_error (crec ctx) k) as [x|] eqn:Ek; [|discriminate].
     destruct (envok_nth _ _ _ He Ek). eapply IH; eauto.
